@@ -130,8 +130,15 @@ def cases(draw, backend):
     specs = [draw(spec_strategy(backend, i)) for i in range(nspecs)]
     scalar_specs = [s for s in specs if not s["ret_coll"]]
 
+    labels_extra = set()
+
     def arg(depth):
-        k = draw(st.sampled_from(["m", "m", "m", "const", "expr", "nested"]))
+        k = draw(st.sampled_from(["m", "m", "m", "const", "expr", "nested", "first"]))
+        if k == "first":
+            # an argument whose evaluation opens a loop of its own (and leaves the translator in a deeper scope)
+            vecm = {"atlas": "weights", "cms_aod": "chi2s", "cms_miniaod": "chi2s"}[backend]
+            labels_extra.add("first-derived-argument")
+            return f"j.{vecm}().First()"
         if k == "m":
             return "j." + draw(st.sampled_from(["pt", "eta", "phi", intm])) + "()"
         if k == "const":
@@ -179,7 +186,15 @@ def cases(draw, backend):
     else:
         text = f"Select({ds}, lambda e: {src}.Select(lambda j: {cols[0]}))" if len(cols) == 1 else f"Select({ds}, lambda e: ({', '.join(f'{src}.Select(lambda j: {c})' for c in cols)}))"
     evs = draw(events_strategy(sch, [(acc, bank)], n_min=2, n_max=3, null_links=False))
-    return {"backend": backend, "specs": specs, "text": text, "expect_error": expect_error, "evs": evs, "mode": mode, "ncalls": text.count("vfFn") - len(specs)}
+    if labels_extra:
+        # keep First() defined most of the time: give every vector at least one element
+        for ev in evs:
+            for o in ev.objs.values():
+                for kk, vv in o.vec.items():
+                    if not vv:
+                        vv.append(1.5)
+    return {"backend": backend, "specs": specs, "text": text, "expect_error": expect_error, "evs": evs, "mode": mode, "ncalls": text.count("vfFn") - len(specs),
+            "extra_labels": sorted(labels_extra)}
 
 
 def template_regex(line: str, names: List[str]):
@@ -310,7 +325,7 @@ def worker(payload):
     def body(c):
         overlaps = check(c)
         nt = bool(overlaps) or c["ncalls"] >= 2 or c["expect_error"]
-        labels = [f"backend={backend}", "mode=" + c["mode"], f"calls={min(c['ncalls'], 5)}"] + (["name-overlap"] if overlaps else [])
+        labels = [f"backend={backend}", "mode=" + c["mode"], f"calls={min(c['ncalls'], 5)}"] + (["name-overlap"] if overlaps else []) + c.get("extra_labels", [])
         for s in c["specs"]:
             labels.append("method" if s["is_method"] else "function")
             if s["ret_coll"]:
